@@ -126,17 +126,23 @@ pub fn check_report(
         }
         return v;
     }
-    // NumericalError is the solver's own statement that its arithmetic broke down
-    // (typically the homogeneous iterate and tau both at the 1e150 scale, so that
-    // the internal dot products overflow although x/tau is moderate): a non-finite
-    // figure reported under that status is not compared
-    if snap.status == SolverStatus::NumericalError
-        && !(snap.obj_val.is_finite()
-            && snap.obj_val_dual.is_finite()
-            && snap.r_prim.is_finite()
-            && snap.r_dual.is_finite())
-    {
-        probe("c03_numerical_error_nonfinite_report");
+    // A non-finite figure reported for a finite, moderate point: the solver evaluates its
+    // figures in homogeneous (tau-scaled) internal variables, which can overflow although
+    // x/tau does not.  By the letter this is a disagreement between report and point; it is
+    // reported under its own class and key so that it can be listed as a known finding
+    // without hiding any other disagreement.
+    let reported = [snap.obj_val, snap.obj_val_dual, snap.r_prim, snap.r_dual];
+    let recomputed = [rec.obj.v, rec.obj_dual.v, rec.r_prim, rec.r_dual];
+    if reported.iter().zip(&recomputed).any(|(a, b)| !a.is_finite() && b.is_finite()) {
+        v.push(Violation::keyed(
+            "C03.nonfinite_figure",
+            "internal_overflow_finite_point",
+            format!(
+                "{}: status {:?} reports obj_val {:e}, obj_val_dual {:e}, r_prim {:e}, r_dual {:e}; recomputed from the returned point: {:e}, {:e}, {:e}, {:e}",
+                tag, snap.status, snap.obj_val, snap.obj_val_dual, snap.r_prim, snap.r_dual,
+                rec.obj.v, rec.obj_dual.v, rec.r_prim, rec.r_dual
+            ),
+        ));
         return v;
     }
     if !close(snap.obj_val, rec.obj) {
